@@ -22,6 +22,7 @@ package sql
 import (
 	"database/sql"
 	"database/sql/driver"
+	"time"
 
 	"seata.apache.org/seata-go/pkg/datasource/sql/types"
 	"seata.apache.org/seata-go/pkg/protocol/branch"
@@ -45,4 +46,12 @@ func VerifRegisterDrivers(atName, xaName string, target driver.Driver) {
 			target:     target,
 		},
 	})
+}
+
+// VerifSetXABranchExecutionTimeout sets the execution timeout of XA branches (otherwise fixed by InitXA when
+// the client starts) and returns the value it had. Verification-only.
+func VerifSetXABranchExecutionTimeout(d time.Duration) time.Duration {
+	old := xaConnTimeout
+	xaConnTimeout = d
+	return old
 }
